@@ -9,7 +9,10 @@
 package main
 
 import (
+	"encoding/json"
+	"errors"
 	"fmt"
+	"io"
 	"os"
 	"path/filepath"
 	"sort"
@@ -32,6 +35,10 @@ type config struct {
 	Autolock bool `json:"autolock"`
 	Autokick bool `json:"autokick"`
 	Window   int  `json:"window"` // 0 none, 1 open (not-before past, expires future), 2 not yet open, 3 closed
+	// Faulty: during the history the description file is replaced by an unreadable one and
+	// repaired again ("description reload" with a fault): while it is unreadable nobody is
+	// admitted, and the members, the lock and the capacity must survive it
+	Faulty bool `json:"faulty,omitempty"`
 }
 
 type input struct {
@@ -46,11 +53,14 @@ type output struct {
 	Count   int    `json:"count,omitempty"`
 	Members string `json:"members,omitempty"`
 	Err     string `json:"err,omitempty"`
+	// Unreadable: the join failed because the description file could not be parsed
+	Unreadable bool `json:"unreadable,omitempty"`
 }
 
 // state is encoded as a string so that porcupine can compare states with ==.
 type state struct {
 	locked  bool
+	broken  bool            // the description file is unreadable
 	members map[string]bool // id -> is operator
 }
 
@@ -68,13 +78,17 @@ func encode(s state) string {
 	if s.locked {
 		l = "L"
 	}
+	if s.broken {
+		l += "B"
+	}
 	return l + "|" + strings.Join(ids, ",")
 }
 
 func decode(e string) state {
 	s := state{members: map[string]bool{}}
 	parts := strings.SplitN(e, "|", 2)
-	s.locked = parts[0] == "L"
+	s.locked = strings.HasPrefix(parts[0], "L")
+	s.broken = strings.HasSuffix(parts[0], "B")
 	if len(parts) > 1 && parts[1] != "" {
 		for _, id := range strings.Split(parts[1], ",") {
 			if strings.HasSuffix(id, "*") {
@@ -122,7 +136,27 @@ func model(cfg config) porcupine.Model {
 			i := in.(input)
 			o := out.(output)
 			switch i.Op {
+			case "break":
+				s.broken = true
+				return true, encode(s)
+			case "repair":
+				s.broken = false
+				return true, encode(s)
 			case "join":
+				if o.Unreadable {
+					// the attempt found the description unreadable: legal only while it is, and
+					// nobody is admitted.  An EMPTY group is unloaded by the failed attempt and
+					// starts afresh when it is next loaded.  (An attempt that read the file
+					// before it became unreadable is decided by the ordinary rules below: the
+					// property orders joins by their admission decision, not by the file read.)
+					if !s.broken {
+						return false, st
+					}
+					if len(s.members) == 0 {
+						s.locked = cfg.Autolock
+					}
+					return true, encode(s)
+				}
 				autolock(&s)
 				admit := true
 				if _, dup := s.members[i.ID]; dup {
@@ -222,6 +256,7 @@ func (r *recorder) do(client int, in input, f func() output) output {
 func runHistory(run *vk.Run, idx uint64) {
 	r := run.Rand(1, idx)
 	cfg := config{Max: []int{0, 1, 2, 3, 5}[r.IntN(5)], Autolock: r.IntN(3) == 0, Autokick: r.IntN(4) == 0, Window: []int{0, 0, 1, 1, 2, 3}[r.IntN(6)]}
+	cfg.Faulty = idx%4 == 3
 	name := fmt.Sprintf("h%d-%d", idx, groupSeq.Add(1))
 	writeGroup(name, cfg)
 	threads := 3 + r.IntN(6)
@@ -267,7 +302,29 @@ func runHistory(run *vk.Run, idx uint64) {
 			defer wg.Done()
 			rr := run.Rand(2, idx, uint64(t))
 			var mine []*fakeClient
+			broken := false
+			if cfg.Faulty && t == 0 {
+				defer func() {
+					if broken {
+						rec.do(t, input{Op: "repair"}, func() output { writeGroup(name, cfg); return output{} })
+					}
+				}()
+			}
 			for k := 0; k < perThread; k++ {
+				if cfg.Faulty && t == 0 && rr.IntN(3) == 0 {
+					if !broken {
+						rec.do(t, input{Op: "break"}, func() output {
+							f := filepath.Join(group.Directory, name+".json")
+							os.WriteFile(f+".tmp-harness", []byte("{\"users\": {\"op1\": "), 0o644)
+							os.Rename(f+".tmp-harness", f)
+							return output{}
+						})
+						run.Count("description_made_unreadable", 1)
+					} else {
+						rec.do(t, input{Op: "repair"}, func() output { writeGroup(name, cfg); return output{} })
+					}
+					broken = !broken
+				}
 				switch x := rr.IntN(100); {
 				case x < 45: // join
 					isOp := rr.IntN(3) == 0
@@ -310,7 +367,8 @@ func runHistory(run *vk.Run, idx uint64) {
 					out := rec.do(t, input{Op: "join", ID: id, IsOp: isOp}, func() output {
 						g, err := group.AddClient(name, c, group.ClientCredentials{Username: strp(user), Password: pw})
 						if err != nil {
-							return output{OK: false, Err: err.Error()}
+							var se *json.SyntaxError
+							return output{OK: false, Err: err.Error(), Unreadable: errors.Is(err, io.ErrUnexpectedEOF) || errors.As(err, &se)}
 						}
 						c.setGroup(g)
 						joinedC = c
@@ -693,6 +751,8 @@ func containsClient(cs []*fakeClient, id string) bool {
 // classify names the rule a non-linearizable history most plausibly breaks (for the key).
 func classify(cfg config, ops []porcupine.Operation) string {
 	switch {
+	case cfg.Faulty:
+		return "unreadable-description"
 	case cfg.Autolock:
 		return "autolock"
 	case cfg.Autokick:
